@@ -413,7 +413,8 @@ def normalise(line, events_differ, arity_differ):
     obs, _, summ = rest.partition(" # ")
     if arity_differ:
         summ = " ".join(summ.split()[:5])
-        obs = re.sub(r" oc=\S+", "", obs)
+        # the probed "other" archetype is (a + 1) mod the number of archetypes, which differs with 32_components
+        obs = re.sub(r" o[crdvb]=\S+", "", obs)
         if k == "cmp":
             # one entry per archetype: compare the five archetypes both worlds have
             obs = re.sub(r"t=\[([^\]]*)\]", lambda m: "t=[" + " ".join(m.group(1).split()[:5]) + "]", obs)
